@@ -7,7 +7,10 @@ package main
 
 import (
 	"bytes"
+	"flag"
 	"fmt"
+	"os"
+	"os/exec"
 	"strings"
 	"sync"
 
@@ -382,9 +385,25 @@ func classKey(seq []event, problem string) string {
 	return "adv:" + w + ":" + strings.Join(s, ",")
 }
 
+var writersBin = flag.String("bin-writers", "", "the concurrent-writers harness (c03x), built with transport rewritten for the scheduler")
+
 func main() {
 	r := vk.New("C03", "fault_enumeration")
 	std := fix.NewStd()
+	if r.ReplayFile != "" && *writersBin != "" {
+		// schedules of the concurrent-writers part are replayed by the build they were found on
+		if b, err := os.ReadFile(r.ReplayFile); err == nil && bytes.Contains(b, []byte(`"choices"`)) {
+			cmd := exec.Command(*writersBin, "-replay", r.ReplayFile, "-tier", r.Tier)
+			cmd.Stdout, cmd.Stderr = os.Stdout, os.Stderr
+			if err := cmd.Run(); err != nil {
+				if ee, ok := err.(*exec.ExitError); ok {
+					os.Exit(ee.ExitCode())
+				}
+				os.Exit(2)
+			}
+			os.Exit(0)
+		}
+	}
 	if r.ReplayFile != "" {
 		var seq []event
 		if err := r.LoadReplay(&seq); err != nil {
@@ -447,6 +466,9 @@ func main() {
 	writeSizes(r, std)
 	counterJump(r, std)
 	confidentiality(r, std)
+	if *writersBin != "" {
+		r.RunChild("writers", *writersBin)
+	}
 	r.Assume("tag forgery is impossible; the adversary's alphabet is the stated one (sequences up to the bound); source addresses are not authenticated by design (C15)")
 	r.Finish()
 }
